@@ -19,9 +19,12 @@
       k*step, hence a level farther than that from every multiple is refused;
       slack k step = 2^-53*|k*step| + 2^-1075 (rounding of the product).
     Side conditions are explicit hypotheses (finite operands, step > 0,
-    |ref| <= 2^51*step on the refusal side).  The earlier bounded sweep is kept. *)
+    |ref| <= 2^51*step on the refusal side).  The earlier bounded sweep
+    (Proofs/RefIndexSweep.v: 12 steps x |k| <= 3000 by vm_compute) is subsumed by
+    C09_multiples_accepted_float_hyps and is no longer an obligation of this file:
+    coqchk, which has no VM, cannot re-check a 72 000-case sweep in reasonable time. *)
 From Spowtd Require Import Model.FitOffsets Model.RefIndex Proofs.QSum Proofs.FitOffsetsSpec
-  Proofs.InvarianceSpec Proofs.RefIndexSweep Proofs.RegridFlocq Proofs.RefIndexFlocq.
+  Proofs.InvarianceSpec Proofs.RegridFlocq Proofs.RefIndexFlocq.
 From Coq Require Import ZArith Reals.
 From Flocq Require Import Core.Core IEEE754.BinarySingleNaN IEEE754.PrimFloat.
 From Coq Require Import PrimFloat FloatOps.
@@ -37,15 +40,6 @@ Theorem C09_origin_keeps_differences : forall E x ref h h' c c',
   == head_mean E x h - head_mean E x h'.
 Proof. exact origin_keeps_differences. Qed.
 Print Assumptions C09_origin_keeps_differences.
-
-(** Every multiple k*step with |k| <= 3000 of the listed steps (1, .5, .1, .2, .3,
-    2.5, 5, 1/3, .001, 2, .25, 10 mm) is accepted and mapped to level k: complete
-    sweep of that finite domain inside Coq (bounded statement). *)
-Theorem C09_multiples_accepted_bounded : forall step k,
-  In step sweep_steps -> (-3000 <= k <= 3000)%Z ->
-  reference_index (PrimFloat.mul (float_of_Z k) step) step = Ok k.
-Proof. exact multiples_accepted_bounded. Qed.
-Print Assumptions C09_multiples_accepted_bounded.
 
 (** GENERAL: every multiple k*step (float product, the way the master-curve
     views compute their levels) of every finite normal step is accepted and
